@@ -406,6 +406,7 @@ def run_property(prop_factory, tier, seed, replay=None):
             harness_errors.append((wcase, "HARNESS-ERROR witness mismatch " + e["id"], {}))
         else:
             info.setdefault("stale_known", []).append(e["id"])
+            print("NOTE: the witness of known finding %s no longer fails on this tree (entry is stale; nothing is suppressed for it)" % e["id"])
     for e in known:
         if e.get("status") == "known" and e["id"] in known_hits:
             print("KNOWN-FINDING: property=%s %s [%s] (%d matching case(s) this run)" % (pid, e["what"], e["id"], len(known_hits[e["id"]])))
